@@ -419,6 +419,38 @@ def smoke_adaptive(rng, n):
             ref = x0 * np.exp(-a * r.index.values)
             if r.values.shape != (8, 1) or np.max(np.abs(r.values.ravel() - ref)) > 1e-5 or not np.allclose(r.index.values, np.arange(8) * 0.25):
                 bad.append({"a": a, "x0": x0, "got": r.values.ravel().tolist(), "ref": ref.tolist(), "index": r.index.values.tolist()})
+        # wiring of the adaptive call: what the user asked for must reach scipy.integrate.solve_ivp unchanged
+        import scipy.integrate as _si
+        orig = _si.solve_ivp
+        for backend in ("default", "jax", "torch"):
+            seen = {}
+
+            def spy(fun, t_span, y0, *a, **kw):
+                seen.update({"t_span": [float(x) for x in t_span], "y0": [float(x) for x in np.asarray(y0).ravel()],
+                             "kw": {k: (v.tolist() if hasattr(v, "tolist") else v) for k, v in kw.items() if k != "args"}})
+                return orig(fun, t_span, y0, *a, **kw)
+            user = {"method": rng.choice(["RK45", "RK23", "DOP853", "LSODA"]), "rtol": rng.choice([1e-7, 1e-9]), "atol": rng.choice([1e-11, 1e-13]), "max_step": rng.choice([0.05, 0.125])}
+            try:
+                _si.solve_ivp = spy
+                with warnings.catch_warnings():
+                    warnings.simplefilter("ignore")
+                    op = OperatorTemplate(name="opw", equations=["x' = -0.5*x"], variables={"x": "output(2.0)"}, path=None)
+                    c = CircuitTemplate(name="cw", nodes={"p": NodeTemplate(name="nw", operators=[op], path=None)}, edges=[])
+                    c.run(simulation_time=2.0, step_size=0.01, sampling_step_size=0.25, solver="scipy", outputs={"x": "p/opw/x"}, float_precision="float64", verbose=False,
+                          in_place=False, backend=backend, **user)
+                done += 1
+                kw = seen.get("kw", {})
+                probs = [k for k, v in user.items() if kw.get(k) != v]
+                if not seen:
+                    bad.append({"wiring": backend, "what": "scipy.integrate.solve_ivp was not called"})
+                elif probs or seen["t_span"] != [0.0, 2.0] or seen["y0"] != [2.0] or kw.get("first_step") != 0.01 or \
+                        not np.allclose(np.asarray(kw.get("t_eval", []), dtype=float), np.arange(8) * 0.25, rtol=0, atol=1e-15):
+                    bad.append({"wiring": backend, "what": "options given to run() did not reach solve_ivp unchanged", "lost_or_changed": probs, "requested": user, "received": kw,
+                                "t_span": seen["t_span"], "y0": seen["y0"]})
+            except Exception as e:
+                bad.append({"wiring": backend, "raise": f"{type(e).__name__}: {str(e)[:200]}"})
+            finally:
+                _si.solve_ivp = orig
     finally:
         os.chdir(cwd)
         shutil.rmtree(wd, ignore_errors=True)
